@@ -56,7 +56,7 @@ def run(ctx):
             prod = [x['v'] for x in o['ev'][:stop] if x['e'] == 'Produced' and x['key'] == e['key']]
             return len(prod) >= 2 and e['hv'] == prod[-1]
         unfinished = bool(bad) and all(last_overwrite(e) for e in bad)
-        cls = {'store': o['kind'], 'shape': shape, 'header_of_unfinished_overwrite': unfinished}
+        cls = {'store': o['kind'], 'shape': shape, 'header_of_unfinished_overwrite': unfinished, 'write_cut_inside_a_slot': o['partial'] is not None}
         if json.dumps(cls) in seen:
             ctx.add('rejections_of_reported_classes')
             continue
